@@ -1,9 +1,16 @@
-(* Reads case lines on stdin, prints "<model result>\t<spec result>" per line. *)
+(* Reads case lines on stdin, prints "<model result>\t<spec result>" per line.
+   With a file name as argument, that file holds the implementation's result for each
+   case (one per line, same order): ops that judge the implementation's behaviour with an
+   extracted spec oracle read it from Drv_common.impl_result. *)
 let () =
   let ic = stdin in
+  let impl = if Array.length Sys.argv > 1 then Some (open_in Sys.argv.(1)) else None in
   (try
      while true do
        let line = input_line ic in
+       (Drv_common.impl_result := match impl with
+           | Some ch -> (try Some (input_line ch) with End_of_file -> None)
+           | None -> None);
        match String.split_on_char ' ' (String.trim line) with
        | [] | [""] -> print_string "?\t-\n"
        | op :: args ->
